@@ -116,6 +116,12 @@ func wideSpace() []expr.Expr {
 		lv := []expr.Expr{
 			ir.Const(new(big.Int).Sub(ir.Mod(w), big.NewInt(1)), w), ir.ConstU(0x1ff, 2),
 			expr.NewRegLoad("r1", w), expr.NewRegLoad("r1", 4), expr.NewRegLoad("r2", 1),
+			// non-zero constants whose low bytes are all zero: only the top byte set, and (from 9
+			// bytes on) 2^64, which is zero to anything that looks at 8 bytes
+			ir.Const(new(big.Int).Lsh(big.NewInt(1), uint(w-1)*8), w),
+		}
+		if w > 8 {
+			lv = append(lv, ir.Const(new(big.Int).Lsh(big.NewInt(1), 64), w))
 		}
 		out = append(out, ir.Collect(lv, nil, []expr.Width{w, w - 1})...)
 	}
